@@ -386,10 +386,26 @@ async fn run_buffered(plan: &LogPlan, o: &OracleRef) -> Value {
                 fresh_term += 1;
                 let term = fresh_term;
                 let start = if model.last() > 0 { model.last() + 1 } else { model.purge.map(|p| p.0).unwrap_or(0) + 1 };
-                let es: Vec<Entry> = (0..*n).map(|k| mk_entry(start + k, term, hist_pid(term, start + k) + 500_000)).collect();
-                for e in &es {
-                    model.entries.insert(e.index, (e.term, pid_of(e)));
+                // as the leader does (ReplicationHandler::generate_new_entries): indexes come from the
+                // log's own allocator; the plain reference log appends right after its last entry
+                // (c19 only: in c18 plans a purge may remove the whole log before a crash, which the node's
+                // purge executor never does - retained_log_entries >= 1 - and the allocator then restarts at 1)
+                let real_start = if is18 { start } else { *log.pre_allocate_id_range(*n).start() };
+                if real_start != start {
+                    o.lock().unwrap().probe("allocator_disagrees_with_plain_log");
+                    if !is18 {
+                        o.lock().unwrap().violate(
+                            "C19",
+                            "query_disagrees",
+                            json!({"op_seq_len": step + 1, "after_op": name, "query": "pre_allocate_id_range (leader append position)", "arg": n,
+                                   "model": start, "got": real_start, "reset_after_purge_earlier": stale_boundary}),
+                        );
+                    }
                 }
+                for k in 0..*n {
+                    model.entries.insert(start + k, (term, hist_pid(term, start + k) + 500_000));
+                }
+                let es: Vec<Entry> = (0..*n).map(|k| mk_entry(real_start + k, term, hist_pid(term, start + k) + 500_000)).collect();
                 let _ = log.append_entries(es).await;
             }
             LOp::Follow { hist, from, n } => {
